@@ -137,3 +137,34 @@ def err_class(msg):
     if "EOF" in msg:
         return "eof"
     return "other"
+
+
+def add_outer_names_in_macro(rng, prog, gate="vfg", executable=False):
+    """Append to a program: a constant, a single-qubit alias indexed by it and a sliced alias bounded by it (both declared
+    OUTSIDE any macro), and a macro one of whose parameters carries the constant's name and whose body uses those aliases
+    beside the parameter itself; the macro is called with another value.  Inside the body the name is the parameter --
+    but the aliases mean what their declarations say.  Returns (program, 1) or (program, 0) when the program has no
+    register of a literal size."""
+    regs = [s for s in prog[1:] if s[0] == "register"]
+    if len(regs) != 1 or not isinstance(regs[0][2], int) or regs[0][2] < 2:
+        return prog, 0
+    used = {s[1] for s in prog[1:] if s[0] in ("let", "register", "map", "macro")}
+    kname, aname, bname, mname = "vfk", "vfone", "vfsl", "vfpick"
+    if {kname, aname, bname, mname} & used:
+        return prog, 0
+    q, n = regs[0][1], regs[0][2]
+    v = rng.randrange(n - 1)
+    v2 = rng.choice([x for x in range(n) if x != v])
+    hdr = [("let", kname, v), ("map", aname, q, kname), ("map", bname, q, kname, None, None)]
+    uses = [("gate", gate, aname), ("gate", gate, ("array_item", bname, 0)), ("gate", gate, ("array_item", q, kname))]
+    rng.shuffle(uses)
+    body = ("sequential_block",) + tuple(uses[:rng.randint(1, 3)])
+    mac = ("macro", mname, kname, body)
+    items = list(prog[1:])
+    k = max([j for j, s in enumerate(items) if s[0] in sx.HEADER], default=-1)
+    items = items[:k + 1] + hdr + items[k + 1:]
+    k = max([j for j, s in enumerate(items) if s[0] in sx.HEADER or s[0] == "macro"], default=-1)
+    items = items[:k + 1] + [mac] + items[k + 1:]
+    call = ("gate", mname, v2)
+    items += [("gate", "prepare_all"), call, ("gate", "measure_all")] if executable else [call]
+    return ("circuit",) + tuple(items), 1
